@@ -48,6 +48,19 @@ def check_antecedent(ctx, case) -> None:
     text = gen.rule_text(r)
     eng = build_case(case)
     rule = eng.rule_blocks[0].rules[0]
+    if case.get("route") == "retext":
+        # the same Rule object first carries another (weighted) text, then this one: what counts is the current text
+        v0 = spec["inputs"][0]
+        rule.text = f"if {v0['name']} is {v0['terms'][0]['name']} then Y is {spec['outputs'][0]['terms'][0]['name']} with 0.500"
+        rule.load(eng)
+        rule.text = text
+        rule.load(eng)
+        ctx.cls("route:retext")
+    via = case.get("via")
+    seeded_terms = list(eng.output_variables[0].fuzzy.terms)
+    if via and mode == "scalar":
+        eng.rule_blocks[0].activation = build.mk_activation(via)
+        ctx.cls("via_activation:" + via["cls"])
     ctx.ev()
     ctx.cls(f"mode:{mode}")
     ctx.check(rule.is_loaded(), "rule-not-loaded", case, {"text": text})
@@ -64,7 +77,14 @@ def check_antecedent(ctx, case) -> None:
         for row in rows:
             for v, x in zip(eng.input_variables, row):
                 v.value = float(x)
-            d = rule.activate_with(conj, disj)
+            if via:
+                # through the rule block's activation method (every method computes each loaded rule's degree with the
+                # block's conjunction and disjunction)
+                eng.output_variables[0].fuzzy.terms[:] = seeded_terms
+                eng.rule_blocks[0].activate()
+                d = rule.activation_degree
+            else:
+                d = rule.activate_with(conj, disj)
             ctx.check(np.size(d) == 1, "scalar-degree-shape", case, {"shape": list(np.shape(d))})
             got.append(float(np.asarray(d).reshape(-1)[0]))
             stored = float(np.asarray(rule.activation_degree).reshape(-1)[0])
@@ -145,7 +165,11 @@ def cases(draw):
     spec = {"name": "E", "inputs": inputs, "outputs": [out], "blocks": [block], "rg": rg}
     n = draw(st.sampled_from([1, 2, 3, 5]))
     rows = [draw(gen.input_row(spec)) for _ in range(n)]
-    return {"spec": spec, "rows": rows, "mode": draw(st.sampled_from(["scalar", "scalar", "batch"]))}
+    via = draw(st.sampled_from([None, None, None, {"cls": "General"}, {"cls": "First", "rules": 1, "threshold": 0.0},
+                                {"cls": "Last", "rules": 1, "threshold": 0.0}, {"cls": "Highest", "rules": 1},
+                                {"cls": "Lowest", "rules": 1}, {"cls": "Threshold", "comparator": ">=", "threshold": 0.0}]))
+    return {"spec": spec, "rows": rows, "mode": draw(st.sampled_from(["scalar", "scalar", "batch"])),
+            "route": draw(st.sampled_from([None, None, None, "retext"])), "via": via}
 
 
 def all_pairs(ctx):
